@@ -86,7 +86,7 @@ BinaryOf(f) ==
       [] f = "fmt" -> {"cat", "alt", "fmt3"}
       [] f = "blocks" -> {"cat"}
       [] f = "upvals" -> {"cat"}
-      [] f = "scopes" -> {"cat", "eq", "alt", "or"}
+      [] f = "scopes" -> {"cat", "eq", "alt", "or", "fmt3"}
       [] f = "refeed" -> {"cat", "or"}
       [] f = "shadow" -> {"cat"}
       [] f = "simp" -> {"cat", "alt", "or"}
@@ -100,7 +100,9 @@ MkUnary(u, a) ==
       [] u = "plus" -> Plus(a)
       [] u = "opt"  -> Opt(a)
       [] u = "fmt1" -> Fmt(<<FLit(<<"<">>), FExp(a), FLit(<<">">>)>>)
-      [] u = "fmt2" -> Fmt(<<FExp(a), FLit(<<"-">>), FExp(Emp)>>)
+      \* (the text between the splices is longer than a short-string buffer: what is kept of it per input stack
+      \* while the left splice yields its values lives on the heap)
+      [] u = "fmt2" -> Fmt(<<FExp(a), FLit(<<" ", "-", "-", " ", "a", "n", "d", " ", "t", "h", "e", "n", " ", "c", "o", "m", "e", "s", " ", "-", "-", " ">>), FExp(Emp)>>)
       [] u = "fmts" -> Cat(a, Fmt(<<FLit(<<"(">>), FExp(Emp), FLit(<<")">>)>>))
       [] u = "let1" -> Cat(Let(<<"X">>, a), Name("X"))
       [] u = "letA" -> Let(<<"A">>, a)
